@@ -66,6 +66,8 @@ def body(c):
     # every documented mmap_mode of Parallel ("None will disable memmapping")
     pmodes = ["r", "c", "None", "r+", "w+"]
     for k, cs in enumerate(pcases): cs["mode"] = pmodes[k % len(pmodes)]
+    # both process backends have their own memmapping reducers set-up (loky: executor, multiprocessing: MemmappingPool)
+    for k, cs in enumerate(pcases): cs["backend"] = "multiprocessing" if k % 4 == 3 else "loky"
     pj = [(base, 100 + k, pcases[k::4], True) for k in range(4)]
     # the same round trips with assertions stripped (python -O / PYTHONOPTIMIZE): nothing may depend on an assert statement
     ocases = cases[:: max(1, len(cases) // (150 if c.quick else 2000))]
